@@ -156,6 +156,91 @@ Proof.
       rewrite Hv; auto.
 Qed.
 
+(* ---- the scoped strip (repaired shape) has the same two properties ---- *)
+Lemma kfilter_perm g m m' : Permutation m m' -> Permutation (kfilter g m) (kfilter g m').
+Proof.
+  unfold kfilter. induction 1 as [|[k v] l l' P IH|[k v] [k' v'] l|l1 l2 l3 P1 IH1 P2 IH2]; simpl; auto.
+  - destruct (g k); auto.
+  - destruct (g k), (g k'); auto. apply perm_swap.
+  - eapply perm_trans; eauto.
+Qed.
+Lemma kmap_perm F m m' : Permutation m m' -> Permutation (kmap F m) (kmap F m').
+Proof. unfold kmap. apply Permutation_map. Qed.
+Lemma jeqm_kfilter g m m' : jeqm m m' -> jeqm (kfilter g m) (kfilter g m').
+Proof.
+  unfold kfilter. induction 1 as [|k a a' l l' Ha Hl IH]; simpl; [constructor|].
+  destruct (g k); auto. constructor; auto.
+Qed.
+Lemma jeqm_kmap F m m' : (forall k a b, jeq a b -> jeq (F k a) (F k b)) ->
+  jeqm m m' -> jeqm (kmap F m) (kmap F m').
+Proof.
+  intros HF. unfold kmap. induction 1 as [|k a a' l l' Ha Hl IH]; simpl; constructor; auto.
+Qed.
+Lemma jeq_obj_lift (G : list (string * json) -> list (string * json)) :
+  (forall m m', Permutation m m' -> Permutation (G m) (G m')) ->
+  (forall m m', jeqm m m' -> jeqm (G m) (G m')) ->
+  forall m m', jeq (JObj m) (JObj m') -> jeq (JObj (G m)) (JObj (G m')).
+Proof.
+  intros GP GJ m m' E. inversion E as [| | | | |? m1 ? P Q]; subst.
+  apply jeq_obj with (m1 := G m1); auto.
+Qed.
+
+Lemma jeq_strip_entry a b : jeq a b -> jeq (strip_entry a) (strip_entry b).
+Proof.
+  intros E. destruct a, b; try (inversion E; fail); try exact E.
+  unfold strip_entry. apply jeq_obj_lift; auto using kfilter_perm, jeqm_kfilter.
+Qed.
+Lemma jeq_strip_entries a b : jeq a b -> jeq (strip_entries a) (strip_entries b).
+Proof.
+  intros E. destruct a, b; try (inversion E; fail); try exact E.
+  unfold strip_entries. apply jeq_obj_lift; auto using kmap_perm.
+  intros m1 m2. apply jeqm_kmap. intros _ x y. apply jeq_strip_entry.
+Qed.
+Lemma jeq_strip_scoped a b : jeq a b -> jeq (strip_scoped a) (strip_scoped b).
+Proof.
+  intros E. destruct a, b; try (inversion E; fail); try exact E.
+  unfold strip_scoped. apply (jeq_obj_lift strip_top); auto; unfold strip_top.
+  - intros m1 m2 P. apply kmap_perm, kfilter_perm, P.
+  - intros m1 m2 Q. apply jeqm_kmap; [|apply jeqm_kfilter, Q].
+    intros k x y Exy. destruct (String.eqb k "param_expressions"); auto using jeq_strip_entries.
+Qed.
+Lemma jeq_strip_block a b : jeq a b -> jeq (strip_block a) (strip_block b).
+Proof. unfold strip_block. destruct node_sem_strip_scoped; [apply jeq_strip_scoped|apply jeq_strip_all]. Qed.
+
+Lemma kfilter_keys g m x : In x (map fst (kfilter g m)) -> In x (map fst m).
+Proof.
+  unfold kfilter. induction m as [|[k v] r IH]; simpl; auto. destruct (g k); simpl; auto. intros [E|I]; auto.
+Qed.
+Lemma kmap_keys F m : map fst (kmap F m) = map fst m.
+Proof. unfold kmap. rewrite map_map. reflexivity. Qed.
+Lemma knd_kfilter g m : knd (JObj m) = true -> knd (JObj (kfilter g m)) = true.
+Proof.
+  rewrite !knd_obj. intros H. apply andb_true_iff in H as [ND FA]. apply andb_true_iff. split.
+  - apply nodupb_NoDup in ND. apply nodupb_NoDup. clear FA.
+    induction m as [|[k v] r IHr]; simpl; [constructor|]. inversion ND; subst. unfold kfilter in *. simpl.
+    destruct (g k); auto. simpl. constructor; auto. intro Hin. apply (kfilter_keys g r k) in Hin. contradiction.
+  - clear ND. unfold kfilter. induction m as [|[k v] r IHr]; simpl in *; auto.
+    apply andb_true_iff in FA as [F1 F2]. destruct (g k); simpl; auto. rewrite F1; auto.
+Qed.
+Lemma knd_kmap F m : (forall k v, knd v = true -> knd (F k v) = true) ->
+  knd (JObj m) = true -> knd (JObj (kmap F m)) = true.
+Proof.
+  intros HF. rewrite !knd_obj, kmap_keys. intros H. apply andb_true_iff in H as [ND FA]. rewrite ND. simpl.
+  unfold kmap. clear ND. induction m as [|[k v] r IHr]; simpl in *; auto.
+  apply andb_true_iff in FA as [F1 F2]. rewrite (HF k v F1). simpl. auto.
+Qed.
+Lemma knd_strip_entry j : knd j = true -> knd (strip_entry j) = true.
+Proof. destruct j; auto. unfold strip_entry. apply knd_kfilter. Qed.
+Lemma knd_strip_entries j : knd j = true -> knd (strip_entries j) = true.
+Proof. destruct j; auto. unfold strip_entries. apply knd_kmap. intros _ v. apply knd_strip_entry. Qed.
+Lemma knd_strip_scoped j : knd j = true -> knd (strip_scoped j) = true.
+Proof.
+  destruct j; auto. unfold strip_scoped, strip_top. intros K. apply knd_kmap; [|apply knd_kfilter, K].
+  intros k v Kv. destruct (String.eqb k "param_expressions"); auto using knd_strip_entries.
+Qed.
+Lemma knd_strip_block j : knd j = true -> knd (strip_block j) = true.
+Proof. unfold strip_block. destruct node_sem_strip_scoped; [apply knd_strip_scoped|apply knd_strip]. Qed.
+
 (* ------------------------------------------------------------------ *)
 Section Inv.
 Variable U5 H : string -> string.
@@ -318,8 +403,8 @@ Proof.
   unfold node_wf in W. apply andb_true_iff in W as [_ W].
   destruct (n_sweep n) as [s|], (n_sweep n') as [s'|]; try contradiction; auto.
   f_equal. unfold node_sem_pre. f_equal. apply dumps_perm_invariant.
-  - apply knd_strip. apply sweep_meta_knd; auto.
-  - apply jeq_strip_all. apply sweep_meta_equiv; auto.
+  - apply knd_strip_block. apply sweep_meta_knd; auto.
+  - apply jeq_strip_block. apply sweep_meta_equiv; auto.
 Qed.
 
 Lemma node_sems_equiv c c' : cfg_wf strict c = true -> cfg_equiv c c' -> node_sems H c = node_sems H c'.
@@ -729,10 +814,10 @@ Qed.
 
 (* node semantic id: determines the sanitized sweep block *)
 Definition sweep_block (n : node) : option json :=
-  match n_sweep n with Some s => Some (canon (strip (sweep_meta H n s))) | None => None end.
+  match n_sweep n with Some s => Some (canon (strip_block (sweep_meta H n s))) | None => None end.
 
 Theorem node_sem_discriminates n m s s' : n_sweep n = Some s -> n_sweep m = Some s' ->
-  jok (strip (sweep_meta H n s)) = true -> jok (strip (sweep_meta H m s')) = true ->
+  jok (strip_block (sweep_meta H n s)) = true -> jok (strip_block (sweep_meta H m s')) = true ->
   node_sem_id H n = node_sem_id H m -> sweep_block n = sweep_block m \/ Collision H.
 Proof.
   intros En Em Jn Jm E. unfold node_sem_id, sweep_block in *. rewrite En, Em in *.
@@ -782,15 +867,50 @@ Definition pe_json (s : sweep) : json :=
 Definition vars_json (s : sweep) : json :=
   JObj (map (fun kv => (fst kv, vspec_json H (snd kv))) (sw_vars s)).
 
+(* the parts of the block that carry the swept expressions and the variable domains, as the code sanitises them *)
+Definition pe_part (s : sweep) : json :=
+  if node_sem_strip_scoped then strip_entries (pe_json s) else strip (pe_json s).
+Definition vars_part (s : sweep) : json :=
+  if node_sem_strip_scoped then vars_json s else strip (vars_json s).
+
 Theorem sweep_block_fields n m s s' : n_sweep n = Some s -> n_sweep m = Some s' ->
   sweep_block H n = sweep_block H m ->
   pi_fqcn (n_info n) = pi_fqcn (n_info m) /\ sw_mode s = sw_mode s' /\ sw_broadcast s = sw_broadcast s' /\
   sw_collection s = sw_collection s' /\
-  canon (strip (pe_json s)) = canon (strip (pe_json s')) /\
-  canon (strip (vars_json s)) = canon (strip (vars_json s')).
+  canon (pe_part s) = canon (pe_part s') /\
+  canon (vars_part s) = canon (vars_part s').
 Proof.
   intros En Em E. unfold sweep_block in E. rewrite En, Em in E.
   apply (f_equal (fun o => match o with Some x => x | None => JNull end)) in E. cbv beta iota in E.
+  unfold pe_part, vars_part. unfold strip_block in E. destruct node_sem_strip_scoped.
+  { (* the repaired shape: top-level filter, raw source dropped inside the param_expressions entries only *)
+  unfold sweep_meta, strip_scoped, strip_top, kfilter in E. rewrite Hui in E.
+  cbn [filter fst snd mem_str String.eqb Ascii.eqb Bool.eqb orb negb] in E.
+  unfold kmap at 1 2 in E.
+  cbn [map fst snd String.eqb Ascii.eqb Bool.eqb] in E.
+  fold (pe_json s) (pe_json s') (vars_json s) (vars_json s') in E.
+  destruct (obj_member _ _ "element_ref" _ E ltac:(simpl; auto 12)) as [v1 [I1 C1]].
+  destruct (obj_member _ _ "mode" _ E ltac:(simpl; auto 12)) as [v2 [I2 C2]].
+  destruct (obj_member _ _ "broadcast" _ E ltac:(simpl; auto 12)) as [v3 [I3 C3]].
+  destruct (obj_member _ _ "collection" _ E ltac:(simpl; auto 12)) as [v4 [I4 C4]].
+  destruct (obj_member _ _ "param_expressions" _ E ltac:(simpl; auto 12)) as [v5 [I5 C5]].
+  destruct (obj_member _ _ "variables" _ E ltac:(simpl; auto 12)) as [v6 [I6 C6]].
+  cbn [In] in I1, I2, I3, I4, I5, I6.
+  repeat (destruct I1 as [I1|I1]; [try discriminate I1|]); try contradiction.
+  repeat (destruct I2 as [I2|I2]; [try discriminate I2|]); try contradiction.
+  repeat (destruct I3 as [I3|I3]; [try discriminate I3|]); try contradiction.
+  repeat (destruct I4 as [I4|I4]; [try discriminate I4|]); try contradiction.
+  repeat (destruct I5 as [I5|I5]; [try discriminate I5|]); try contradiction.
+  repeat (destruct I6 as [I6|I6]; [try discriminate I6|]); try contradiction.
+  injection I1 as <-. injection I2 as <-. injection I3 as <-. injection I4 as <-. injection I5 as <-. injection I6 as <-.
+  repeat split.
+  - simpl in C1. injection C1; auto.
+  - simpl in C2. injection C2; auto.
+  - simpl in C3. injection C3; auto.
+  - destruct (sw_collection s), (sw_collection s'); simpl in C4; try discriminate C4; auto. injection C4 as ->. reflexivity.
+  - exact C5.
+  - exact C6.
+  }
   unfold sweep_meta in E. rewrite !strip_obj in E.
   unfold strip_m, dropped in E. rewrite Hui, Hdk in E.
   cbn [mem_str String.eqb Ascii.eqb Bool.eqb orb] in E.
